@@ -13,6 +13,7 @@ import Gpa.Model.Telemetry
 import Gpa.Model.Logs
 import Gpa.Model.Ebpf
 import Gpa.Model.Provision
+import Gpa.Model.SetupFs
 
 open Gpa
 
@@ -63,6 +64,19 @@ def parseFlag (s : String) : Option Provision.Flags :=
   | "k" => some Provision.fKeyLatch
   | "l" => some Provision.fListener
   | _ => none
+
+def setupPaths : List SetupFs.Path :=
+  [.sysExe, .sysCfg, .sysEbpf, .sysUnit, .pkgExe, .pkgCfg, .pkgEbpf, .pkgUnit, .bakExe, .bakCfg, .bakEbpf, .bakUnit]
+
+def setupFsOf (vals : List (Option Nat)) : SetupFs.Fs := fun p =>
+  match setupPaths.idxOf? p with
+  | some i => (vals[i]?).join
+  | none => none
+
+def showEv : SetupFs.Ev → String
+  | .systemctl w => "sys:" ++ w
+  | .write p => "w:" ++ toString (setupPaths.idxOf p)
+  | .delete p => "d:" ++ toString (setupPaths.idxOf p)
 
 def stepLine (st : DState) (line : String) : DState × String :=
   match line.trimAscii.toString.splitOn " " with
@@ -248,6 +262,18 @@ def stepLine (st : DState) (line : String) : DState × String :=
       | some i => let g := Provision.runIdx st.prov i; ({ st with prov := g }, showProv g)
       | none => (st, "bad-op")
   | ["prov", "show"] => (st, showProv st.prov)
+  | "setup" :: cmd :: vals =>
+      let c : Option SetupFs.Cmd := match cmd with
+        | "backup" => some .backup | "install" => some .install | "restore1" => some (.restore true) | "restore0" => some (.restore false)
+        | "uninstall_service" => some (.uninstall false) | "uninstall_package" => some (.uninstall true) | "purge" => some .purge
+        | _ => none
+      match c with
+      | some c =>
+          let fs := setupFsOf (vals.map String.toNat?)
+          let r := SetupFs.run (fun x => x < 1000) fs c
+          let out := setupPaths.map fun p => match r.1 p with | some v => toString v | none => "-"
+          (st, " ".intercalate out ++ " | " ++ ",".intercalate (r.2.map showEv))
+      | none => (st, "bad-op")
   | "authz" :: toks =>
       match Tok.run (do let ip ← Tok.str; let port ← Tok.nat; let e ← Pipeline.pBool
                         let rules ← Tok.opt Rbac.pItem; let u ← Rbac.pUri; let c ← Rbac.pClaims
